@@ -392,8 +392,12 @@ def run_lines(exe, case_text, timeout=600, env=None, args=()):
     return rc, out.splitlines(), err
 
 
-def run_sharded(exe, cases, shards=None, timeout=600, env=None, args=()):
-    """cases: list of single-line case strings; each produces exactly one output line.
+def run_sharded(exe, cases, shards=None, timeout=3600, env=None, args=()):
+    """The wall-clock limit is only the last line of defence (a looping case is ended by the drivers'
+    processor-time watchdogs long before); it is generous because a busy machine can slow a shard of
+    the model runner down many times over, and a model that did not answer must never look like a
+    disagreement.
+    cases: list of single-line case strings; each produces exactly one output line.
     Runs in parallel shards; returns (list of output lines aligned with cases, list of (shard_rc, stderr))."""
     shards = shards or NCPU
     n = len(cases)
